@@ -23,6 +23,9 @@ import (
 // buildOverlay applies the unified diff to copies of the files it touches and
 // returns the patched contents keyed by their path inside repo.
 func buildOverlay(repo, patchFile string) (map[string][]byte, error) {
+	if abs, err := filepath.Abs(patchFile); err == nil {
+		patchFile = abs // `patch` runs in a scratch directory
+	}
 	diff, err := os.ReadFile(patchFile)
 	if err != nil {
 		return nil, err
